@@ -236,6 +236,15 @@ pub fn run(ctx: &Ctx) -> (&'static str, &'static str) {
         }
         ctx.require(n_special >= 12, "too few elements with a special intermediate value");
     }
+    // power-of-two multiples of small elements: the norm a^2 + b^2 then has a prescribed 2-adic valuation (2k + v2(a^2+b^2)),
+    // zero low limbs at every boundary, and so has every intermediate value of an integer algorithm run on it (binary gcd /
+    // Jacobi symbol, shifting reductions)
+    for k in [31usize, 32, 33, 40, 63, 64, 65, 96, 127, 128, 160, 190] {
+        let p2 = Q1::new(alpha::pow2(k));
+        for (a, b) in [(1u64, 0u64), (0, 1), (1, 1), (1, 2), (3, 0), (2, 3), (3, 5)] {
+            els.push(Q2::new(vec![Q1::from_u64(a).mul(&p2), Q1::from_u64(b).mul(&p2)]));
+        }
+    }
     let mut seen = HashSet::new();
     els.retain(|x| seen.insert(x.clone()));
     let sub: Vec<Fq2> = els.iter().map(fq2_of).collect();
